@@ -192,3 +192,8 @@ def history(cr):
 
 def schedule_text(cr):
     return " ".join(SC.schedule_tokens(cr))
+
+
+def schedule_raw(cr):
+    """participant index of every grant, in order (exact replay with the same binaries)"""
+    return [i for i, _ in cr.decisions]
